@@ -4,6 +4,7 @@
    PARTIAL: bookkeeping proved; "a result of an exited activation is discarded" is REFUTED for a completion event
    that is already queued (finding F9); a rolled-back entry leaves its services running (finding F19). *)
 From XSM Require Import Model.Macro Proofs.TimerP Proofs.LifeP.
+From XSM Require Import Model.TreeLib Gen.GenGeom Proofs.SkeletonBridge.
 
 (* a service that is referenced but not registered is fatal at entry *)
 Theorem C09_missing_service_is_fatal : forall eng x i s,
@@ -62,3 +63,20 @@ Theorem C09_current_activation_only_refuted :
   sort_nat (s_cfg s1) = [0; 3] /\ s_now s1 = 81.       (* onDone taken at t = 81: the second job (50 ms) started at 81 *)
 Proof. vm_compute. auto. Qed.
 Print Assumptions C09_current_activation_only_refuted.
+
+(* TIE T for the ORDER OF EFFECTS: the effect skeletons of _exit_states and _enter_states are extracted from BOTH engines' copies
+   in the current source on every run (Gen/GenGeom.v; for _enter_states every path through the loop body must agree with one
+   total order of the five effects) and, interpreted over the model's own effect primitives, ARE the model's exit_states and
+   enter_one - so "a state's tasks are cancelled before its exit actions run", "exit actions before the state leaves the
+   configuration", "entry actions before the default descent", "where the state's tasks are scheduled relative to the
+   descent" are read off the source, per engine *)
+Theorem C09_exit_order_is_the_source_async : forall pr m l ev s,
+  run_exit_skeleton GenGeom.exit_skeleton_async Async pr m l ev s = exit_states Async pr m l ev s.
+Proof. exact exit_skeleton_async_bridge. Qed.
+Print Assumptions C09_exit_order_is_the_source_async.
+Theorem C09_exit_order_is_the_source_sync : forall eng pr m l ev s, eng <> Async ->
+  run_exit_skeleton GenGeom.exit_skeleton_sync eng pr m l ev s = exit_states eng pr m l ev s.
+Proof. exact exit_skeleton_sync_bridge. Qed.
+Print Assumptions C09_exit_order_is_the_source_sync.
+
+
